@@ -643,6 +643,7 @@ type StructFieldCode struct {
 	isAddrForMarshaler bool
 	isNextOpPtrType    bool
 	isMarshalerContext bool
+	depth              int // embedding depth below the struct being compiled ( set while name conflicts are resolved )
 }
 
 func (c *StructFieldCode) getStruct() *StructCode {
